@@ -113,6 +113,7 @@ type c10frame struct {
 	bufLen  int64
 	zeroing map[*ssa.Function]bool // callee: nil-error return ⇒ held == 0
 	mayMod  map[*ssa.Function]bool
+	nest    int
 }
 
 func (f *c10frame) isHeldAddr(v ssa.Value) bool {
@@ -303,6 +304,11 @@ func (f *c10frame) zeroOnNil(fn *ssa.Function) bool {
 	if res.Len() == 0 || !types.Identical(res.At(res.Len()-1).Type(), types.Universe.Lookup("error").Type()) {
 		return false
 	}
+	if f.nest >= 3 { // stage → helper → helper-of-helper; deeper chains are not summarised
+		return false
+	}
+	f.nest++
+	defer func() { f.nest-- }()
 	idx := res.Len() - 1
 	okAll := true
 	for _, b := range fn.Blocks {
@@ -311,21 +317,101 @@ func (f *c10frame) zeroOnNil(fn *ssa.Function) bool {
 			if !ok {
 				continue
 			}
-			bars := []Barrier{
-				StoreBarrier("held = 0", f.heldF, IsConstInt(0)),
-				OnCmp("held == 0", FieldIs(f.heldF), token.EQL, IsConstInt(0), true),
-			}
-			rv := Desc(rt.Results[idx])
-			if !IsNilConst(rv) {
-				want := rv.String()
-				bars = append(bars, OnTrue("returned error is non-nil", func(e *Expr) bool { return e.String() == want }))
-			}
-			if ug, _ := f.c.unguarded(in, bars, fn); ug {
+			if !f.errImpliesZero(fn, rt.Results[idx], in, 0) {
 				okAll = false
 			}
 		}
 	}
 	return okAll
+}
+
+// modifiesHeld: the instruction stores held or calls something that may.
+func (f *c10frame) modifiesHeld(in ssa.Instruction) bool {
+	if isFieldStore(in, f.heldF, nil) {
+		return true
+	}
+	if cc := callCommon(in); cc != nil {
+		if sf := cc.StaticCallee(); sf != nil && len(sf.Blocks) > 0 && f.mayModify(sf) {
+			return true
+		}
+	}
+	return false
+}
+
+// errImpliesZero: whenever the error value v, as it is when control reaches
+// `at`, is nil, held == 0 holds there.
+//   - v is the result of a same-package callee with that very summary and
+//     nothing touches held between the call and `at`;
+//   - v is a phi: every incoming value qualifies at the end of its predecessor;
+//   - otherwise every path to `at` crosses a store held = 0, the held == 0
+//     edge, or the edge on which v itself is non-nil.
+func (f *c10frame) errImpliesZero(fn *ssa.Function, v ssa.Value, at ssa.Instruction, depth int) bool {
+	if depth > 6 {
+		return false
+	}
+	switch x := v.(type) {
+	case *ssa.Phi:
+		blk := x.Block()
+		for i, e := range x.Edges {
+			if i >= len(blk.Preds) || len(blk.Preds[i].Instrs) == 0 {
+				return false
+			}
+			pred := blk.Preds[i]
+			if !f.errImpliesZero(fn, e, pred.Instrs[len(pred.Instrs)-1], depth+1) {
+				return false
+			}
+		}
+		return len(x.Edges) > 0
+	case *ssa.Extract:
+		if cl, ok := x.Tuple.(*ssa.Call); ok && x.Index == cl.Call.Signature().Results().Len()-1 {
+			if f.calleeZeroes(cl, at) {
+				return true
+			}
+		}
+	case *ssa.Call:
+		if f.calleeZeroes(x, at) {
+			return true
+		}
+	}
+	bars := []Barrier{
+		StoreBarrier("held = 0", f.heldF, IsConstInt(0)),
+		OnCmp("held == 0", FieldIs(f.heldF), token.EQL, IsConstInt(0), true),
+	}
+	rv := Desc(v)
+	if !IsNilConst(rv) {
+		want := rv.String()
+		bars = append(bars, OnTrue("returned error is non-nil", func(e *Expr) bool { return e.String() == want }))
+	}
+	ug, _ := f.c.unguarded(at, bars, fn)
+	return !ug
+}
+
+// calleeZeroes: cl calls an unexported-or-not same-package function whose
+// nil-error returns have held == 0, and held is untouched from the call to `at`.
+func (f *c10frame) calleeZeroes(cl *ssa.Call, at ssa.Instruction) bool {
+	sf := cl.Call.StaticCallee()
+	if sf == nil || len(sf.Blocks) == 0 || fnPkg(sf) == nil || fnPkg(cl.Parent()) == nil || fnPkg(sf) != fnPkg(cl.Parent()) {
+		return false
+	}
+	if !f.mayModify(sf) {
+		return false
+	}
+	if o := sf.Origin(); o != nil {
+		sf = o
+	}
+	if !f.zeroing[sf] {
+		return false
+	}
+	r := reach([]Point{pointAfter(cl)}, nil, func(in ssa.Instruction) bool { return in == at })
+	if !r.visited[at] {
+		return false
+	}
+	for _, in := range r.order {
+		if in != at && f.modifiesHeld(in) {
+			return false
+		}
+	}
+	return true
 }
 
 func (f *c10frame) storesHeld(fn *ssa.Function, depth int, seen map[*ssa.Function]bool) bool {
@@ -528,7 +614,7 @@ func (f *c10frame) mayModify(sf *ssa.Function) bool {
 
 func c10R9(c *Ctx) {
 	const rule = "C10-R9"
-	c.Doc(rule, "every write into tcpStream.drain at the running offset held (frame prefix via PutUint16, payload via copy) is dominated, on every path of its function, by integer guards that imply held + bytes-written-from-here <= len(drain); held is tracked through its stores, and a callee re-bases it to 0 only if every nil-error return of that callee has held == 0 (flush)")
+	c.Doc(rule, "every write into tcpStream.drain at the running offset held (frame prefix via PutUint16, payload via copy) is dominated, on every path of its function, by integer guards that imply held + bytes-written-from-here <= len(drain); held is tracked through its stores, and a same-package callee re-bases it to 0 only if every nil-error return of that callee has held == 0 — directly (flush) or because it returns the error of such a callee with held untouched in between (helpers, nesting ≤ 3)")
 	const pkg = "server"
 	heldF := c.field(rule, pkg+".tcpStream.held")
 	bufF := c.field(rule, pkg+".tcpStream.drain")
